@@ -1,0 +1,25 @@
+//! Thin wrappers exposing the interpreter's private filter operator functions to the external
+//! runtime-verification harness. Only compiled with the `verif_hooks` feature.
+use crate::ir::FieldValue;
+
+use super::filtering;
+
+pub use super::hints::verif_hooks as hints;
+
+/// Returns the real implementation of the named binary filter operator, in its non-negated form.
+pub fn filter_fn(op: &str) -> Option<fn(&FieldValue, &FieldValue) -> bool> {
+    Some(match op {
+        "=" => filtering::equals,
+        "<" => filtering::less_than,
+        "<=" => filtering::less_than_or_equal,
+        ">" => filtering::greater_than,
+        ">=" => filtering::greater_than_or_equal,
+        "has_substring" => filtering::has_substring,
+        "has_prefix" => filtering::has_prefix,
+        "has_suffix" => filtering::has_suffix,
+        "one_of" => filtering::one_of,
+        "contains" => filtering::contains,
+        "regex" => filtering::regex_matches_slow_path,
+        _ => return None,
+    })
+}
